@@ -431,7 +431,7 @@ Factory(b, k) ==     \* b: failing from now on; k: ... after k more successful c
   /\ UNCHANGED <<nconn, scst, scref, refr, slots, affm, fbm, cnt, gst, pubs, calls, addrs, cfgd, ecfg, meth, rrid, pend>>
 
 KeySeqs == {<<>>} \cup {<<k>> : k \in Keys} \cup {s2 \in {<<k1, k2>> : k1 \in Keys, k2 \in Keys} : s2[1] # s2[2]}
-ReqShapes == IF UseBadReq THEN {"", "nil"} ELSE {""}
+ReqShapes == IF UseBadReq THEN {"", "nil", "embnil"} ELSE {""}
 
 \* a blocked pick that has returned is delivered before anything else happens (the harness does the same)
 Undelivered == {j \in DOMAIN pend : pend[j].done}
@@ -474,7 +474,8 @@ FreeNext ==
           \/ (m \in {"BOUND", "BOUND2", "UNBIND"} /\
                 \E k \in Keys : Pick(pk, m, <<k>>, "", FALSE, dl))
           \/ (m \in {"BOUND", "UNBIND"} /\ UseBadReq /\
-                (Pick(pk, m, <<>>, "", FALSE, dl) \/ Pick(pk, m, <<>>, "nil", FALSE, dl) \/ \E k \in Keys : Pick(pk, m, <<k>>, "", TRUE, dl)))
+                (Pick(pk, m, <<>>, "", FALSE, dl) \/ Pick(pk, m, <<>>, "nil", FALSE, dl) \/ Pick(pk, m, <<>>, "embnil", FALSE, dl)
+                   \/ \E k \in Keys : Pick(pk, m, <<k>>, "", TRUE, dl)))
           \/ (m \notin {"BOUND", "BOUND2", "UNBIND"} /\ Pick(pk, m, <<>>, "", FALSE, dl))
           \/ (m = "BIND" /\ UseBadReq /\ Pick(pk, m, <<>>, "", TRUE, dl))
      \/ \E n \in DOMAIN calls, o \in Outs :
